@@ -31,6 +31,7 @@ pub fn exec(op: &str, args: &[&str]) -> String {
         "rprove" => range::op_rprove(args),
         "rmprove" => "emit:".to_string(),
         "rseq" => range::op_rseq(args),
+        "vseq" => args.iter().map(|tok| match tok.split_once(':') { Some((i, h)) => sigma::op_verify(&[i, h]).chars().next().map(|c| if c == 'b' { '?' } else { c }).unwrap_or('?'), None => '?' }).collect::<String>(),
         "decode" => enc::op_decode(args),
         "serde" => enc::op_serde(args),
         "extract" => enc::op_extract(args),
